@@ -104,6 +104,9 @@ def install_marks():
     def log_call(self, name, *params):
         s = sc.active()
         if s is not None and not self._quiet:
+            # a device command is an I/O operation: a thread switch can happen in front of it
+            s.point(('device',))
+            s.note('dev', None, getattr(name, 'name', str(name)))
             s.mark('device', getattr(name, 'name', str(name)))
             w = getattr(s, 'next_work', None)
             if w is not None:
